@@ -336,6 +336,30 @@ def campaign(c):
                 impl, model = progdiff.run_both(c, src)
                 judge_cli(c, src, impl, model, 'zero-checksum')
         c.case(('zfold', i), dict(kind='zero-checksum', payload=pay.hex()) if i % 5 == 0 else None)
+    # (3c) sums whose first fold carries again (the end-around carry of the Internet checksum has to be applied twice): IPv4 headers
+    #      with the identification tuned so that the low half of the sum is 0xffff, and transport payloads tuned the same way
+    for i in range(16 if c.quick else 200):
+        r = c.rng.fork('fold%d' % i)
+        srcip, dstip = 0xffff0000 | r.below(65536), 0xfffe0000 | r.below(65536)
+        ttl, proto, n = r.choice([255, 254, 200]), r.choice([255, 253, 17]), 2 * r.below(20)
+        words = [0x4500, 20 + n, 0x4000, (ttl << 8) | proto, srcip >> 16, srcip & 0xffff, dstip >> 16, dstip & 0xffff]
+        idv = (0xffff - sum(words)) & 0xffff
+        pay = r.bytes(n)
+        from ..netscen import ip as ipf
+        src = ('import ipv4;\nipv4::datagram(%s, %s, id: %d, ttl: %d, proto: %d, df: true, "|%s|");\n' % (ipf(srcip), ipf(dstip), idv, ttl, proto, pay.hex())).encode()
+        impl, model = progdiff.run_both(c, src)
+        judge_cli(c, src, impl, model, 'double-carry')
+        # the same for the transport sum: two trailing bytes chosen so that pseudo-header + header + payload has low half 0xffff
+        a, b_ = 0xfff00000 | r.below(2 ** 20), 0xffe00000 | r.below(2 ** 20)
+        sp, dp = 60000 + r.below(5000), 60000 + r.below(5000)
+        pre = b'\xff\xff' * (4 + r.below(20))
+        ulen = 8 + len(pre) + 2
+        ws = [a >> 16, a & 0xffff, b_ >> 16, b_ & 0xffff, 17, ulen, sp, dp, ulen] + [0xffff] * (len(pre) // 2)
+        w = (0xffff - sum(ws)) & 0xffff
+        src = ('import ipv4;\nlet u = ipv4::udp::flow(%s:%d, %s:%d);\nu.client_dgram("|%s|");\n' % (ipf(a), sp, ipf(b_), dp, (pre + w.to_bytes(2, 'big')).hex())).encode()
+        impl, model = progdiff.run_both(c, src)
+        judge_cli(c, src, impl, model, 'double-carry')
+        c.case(('fold', i), dict(kind='double-carry', id=idv) if i % 4 == 0 else None)
     # (4) nesting depth (the native stack is outside the model)
     for depth in ([50, 500, 3000, 20000] if c.quick else [50, 500, 1000, 3000, 8000, 20000, 60000]):
         for shape in ('call', 'slash', 'args'):
